@@ -219,6 +219,37 @@ fn seq_families(tier: Tier, _seed: u64) -> Vec<Family<ExPlan>> {
             }
             plan
         }));
+        // byte-identical packets in a row: for every sequence and every non-final packet of its alphabet,
+        // the packet two and three times, then the final one
+        {
+            let mut cases: Vec<(SeqId, Cf, u8)> = vec![];
+            for id in ALL_SEQS {
+                let info = seqs::info(id);
+                if info.single_reply {
+                    continue;
+                }
+                for nf in info.non_final {
+                    for times in [2u8, 3] {
+                        cases.push((id, *nf, times));
+                    }
+                }
+            }
+            let n = cases.len() as u64 * 3;
+            fams.push(Family::new("identical_packets_in_a_row", n, true, move |i, _| {
+                let (id, nf, times) = cases[(i / 3) as usize];
+                let one = frames_for(id, &[nf], 40 + (i % 7) as u8).remove(0);
+                let fin = frames_for(id, &[seqs::info(id).finals[0]], 2).remove(0);
+                let mut replies: Vec<Vec<u8>> = (0..times).map(|_| one.clone()).collect();
+                replies.push(fin);
+                let mut plan = ExPlan::clean(id, InParams::fixed(), replies);
+                plan.mode = [Mode::Lockstep, Mode::Eager, Mode::Paced][(i % 3) as usize];
+                if plan.mode == Mode::Paced {
+                    plan.paced_cuts = vec![5, 11];
+                }
+                plan.tail = rc::ACK.to_vec();
+                plan
+            }));
+        }
         // the terminal stalls at every byte position of the first packets of an exchange (inside the
         // acknowledgement, inside each header, inside a body, between packets)
         {
@@ -279,6 +310,16 @@ pub fn random_plan(rng: &mut Rng, max_depth: usize) -> ExPlan {
         InParams::random(rng)
     };
     let mut plan = ExPlan::clean(id, input, frames_for(id, &script, rng.next_u64() as u8));
+    // a terminal may well send the same packet twice in a row (the same status, a blank print line):
+    // each is a packet of its own - acknowledged, handed over
+    if rng.pct(15) && plan.replies.len() > 1 {
+        let k = rng.usize_below(plan.replies.len() - 1);
+        let dup = plan.replies[k].clone();
+        let times = 1 + rng.usize_below(2);
+        for _ in 0..times {
+            plan.replies.insert(k, dup.clone());
+        }
+    }
     plan.mode = *rng.pick(&[Mode::Lockstep, Mode::Eager, Mode::Paced]);
     plan.sched = Sched::random(rng);
     plan.tail = random_tail(rng);
